@@ -48,12 +48,19 @@ class Counter:
         self.exclude = tuple(os.path.realpath(e) for e in exclude)
         self.last = None
         self.enabled = True
+        self.trace = None  # optional: one character per event ('O' = open of a non-temporary name)
 
     def _hit(self, event, path):
         if any(_under(path, e) for e in self.exclude):
             return
         self.n += 1
         self.last = (event, os.fspath(path) if not isinstance(path, int) else path)
+        if self.trace is not None:
+            ch = {"open": "o", "os.rename": "r", "os.chmod": "c", "os.remove": "u", "os.mkdir": "m",
+                  "os.link": "l", "os.symlink": "s", "verif.partial_copy": "p"}.get(event, "x")
+            if ch == "o" and not os.path.basename(os.fspath(path)).endswith(".tmp"):
+                ch = "O"
+            self.trace.append(ch)
         if self.kill_at is not None and self.n == self.kill_at:
             os._exit(137)
 
@@ -104,7 +111,7 @@ def _install_partial_copy():
     shutil.copyfileobj = copyfileobj
 
 
-def run_child(fn, root, kill_at=None, exclude=()):
+def run_child(fn, root, kill_at=None, exclude=(), trace=False):
     """Fork; in the child run fn() under the counting hook. Returns (status, n_events, last_event).
 
     status: 'done' (fn returned), 'killed' (exit 137 at kill_at), 'error:<text>'.
@@ -118,12 +125,14 @@ def run_child(fn, root, kill_at=None, exclude=()):
         try:
             os.close(r)
             c = Counter(root, kill_at, exclude)
+            if trace:
+                c.trace = []
             _install_partial_copy()
             sys.addaudithook(c.hook)
             try:
                 fn()
                 c.enabled = False
-                msg = f"done {c.n}"
+                msg = f"done {c.n}" + (" " + "".join(c.trace) if c.trace is not None else "")
             except BaseException as exc:  # noqa: BLE001
                 c.enabled = False
                 import traceback
@@ -148,5 +157,6 @@ def run_child(fn, root, kill_at=None, exclude=()):
     if code == 137:
         return "killed", kill_at, None
     if out.startswith("done "):
-        return "done", int(out.split()[1]), None
+        parts = out.split()
+        return "done", int(parts[1]), (parts[2] if len(parts) > 2 else None)
     return "error:" + out, None, None
